@@ -742,6 +742,30 @@ func (e *Env) callExpr(x ECall) Term {
 		return fv.ghostTerm(e.st, "log."+key+".n", SMath)
 	case "fabs", "fisnan", "fisinf", "flt", "fle", "feq", "f32", "f64", "fconst", "ftoi64", "itof64", "fadd", "fmul", "fsub":
 		return e.floatBuiltin(x)
+	case "maphas", "mapget":
+		// maphas(m, k) / mapget(m, k): presence and value of key k in map m as the code reads them in this state
+		argn(2)
+		m, k := e.eval(x.Args[0]), e.eval(x.Args[1])
+		var vs Sort
+		if m.Go != nil {
+			if mt, ok := m.Go.Underlying().(*types.Map); ok {
+				vs = fv.sortOf(mt.Elem())
+			}
+		}
+		g, h, fine := fv.mapFuncsIn(e.st, m, k, vs)
+		if !fine {
+			e.fail("%s: not a map with integer or boolean values", x.Fn)
+		}
+		if x.Fn == "maphas" {
+			return Term{S: h, Sort: SBool}
+		}
+		return Term{S: g, Sort: vs}
+	case "strlt":
+		// strlt(a, b): the code's a < b on strings (uninterpreted order)
+		argn(2)
+		a, b := e.eval(x.Args[0]), e.eval(x.Args[1])
+		fv.declareFun("strlt", []string{"Bytes", "Bytes"}, "Bool")
+		return Term{S: app("strlt", a.S, b.S), Sort: SBool}
 	case "callseq":
 		// callseq(K, i): position of the i-th logged call of K in the global order of logged calls
 		argn(2)
